@@ -3736,6 +3736,11 @@ class AllConnGraph(nx.DiGraph):
                     msg = (f"Value shape {np.squeeze(val).shape} does not match shape "
                            f"{np.squeeze(pos).shape} of the destination")
             else:
+                if np.ndim(arr) == 0:
+                    # a variable declared with shape () whose value is held as a 0-d array
+                    # (convert_set hands scalars over as 1-element arrays)
+                    arr[()] = np.reshape(val, ())
+                    return
                 try:
                     arr[:] = val
                 except ValueError:
